@@ -12,11 +12,17 @@ def alphaRT8 (a : Nat) : Bool := force (F32.div (F32.ofNat a) f255) fun x => qua
 def alphaChunk16 (k : Nat) : Bool := allDepth alphaRT16 (256 * k) 8
 def alphaAll8 : Bool := allDepth alphaRT8 0 8
 
-/-- premultiplied validity at the extreme `r = a`: linearising `(a, a, a, a)` gives channels `≤ a`
-(for fixed alpha the linearised channel is monotone in `r`, so `r = a` is the worst case) -/
+/-- premultiplied validity at the extreme `r = a` (for fixed alpha the linearised channel is
+monotone in `r` — `Prism/Proofs/C14Premul.lean` — so `r = a` is the worst case): the decoded alpha
+is a positive finite float, the un-premultiplied and re-premultiplied channel values are finite,
+and the linearised channel is at most `a` -/
 def premulTop (s : Space) (a : Nat) : Bool :=
-  a == 0 || (let p := lineariseColor s a a a a
-             Nat.ble p.r a && p.a == a)
+  a == 0 ||
+  force (F32.div (F32.ofNat a) f65535) fun alpha =>
+  force (F32.div (dec16 s a) alpha) fun c =>
+  force (F32.mul c alpha) fun m =>
+  Nat.blt 0 alpha && Nat.blt alpha 2139095040 && Nat.blt c 2139095040 && Nat.blt m 2139095040 &&
+    Nat.ble (quant16 m) a
 def premulChunk (s : Space) (k : Nat) : Bool := allDepth (premulTop s) (256 * k) 8
 
 end Prism
